@@ -71,8 +71,8 @@ func loadProgram(patterns []string, overlay map[string][]byte) (*Exec, error) {
 	x := &Exec{prog: prog, pkgs: pkgs, spkgs: map[string]*ssa.Package{}, tpkgs: map[string]*types_Package{},
 		contracts: map[string]*PkgContracts{}, srcLines: map[string][]string{},
 		obligs: map[string]*Oblig{}, notes: map[string]bool{}, inlined: map[string]bool{}, modular: map[string]bool{},
-		havocked: map[string]bool{}, funcIDs: map[string]int{}, typeIDs: map[string]int{}, ghosts: map[string]*ghostInfo{},
-		witness: map[string]ast.Expr{}}
+		havocked: map[string]bool{}, modelled: map[string]bool{}, funcIDs: map[string]int{}, typeIDs: map[string]int{}, ghosts: map[string]*ghostInfo{},
+		witness: map[string]ast.Expr{}, errGlobals: map[string]int{}}
 	if len(pkgs) > 0 {
 		x.fset = pkgs[0].Fset
 	}
@@ -91,6 +91,40 @@ func loadProgram(patterns []string, overlay map[string][]byte) (*Exec, error) {
 			}
 		}
 	})
+	// error sentinels: globals assigned exactly once, in init, from an error constructor
+	for _, sp := range x.spkgs {
+		initFn := sp.Func("init")
+		if initFn == nil {
+			continue
+		}
+		for _, b := range initFn.Blocks {
+			for _, ins := range b.Instrs {
+				stI, ok := ins.(*ssa.Store)
+				if !ok {
+					continue
+				}
+				g, ok := stI.Addr.(*ssa.Global)
+				if !ok {
+					continue
+				}
+				call, ok := stI.Val.(*ssa.Call)
+				if !ok {
+					continue
+				}
+				cal := call.Common().StaticCallee()
+				if cal == nil {
+					continue
+				}
+				switch cal.String() {
+				case "errors.New", "fmt.Errorf", "github.com/scionproto/scion/pkg/private/serrors.New":
+					key := "G:" + g.Pkg.Pkg.Path() + "." + g.Name()
+					if _, dup := x.errGlobals[key]; !dup {
+						x.errGlobals[key] = len(x.errGlobals) + 1
+					}
+				}
+			}
+		}
+	}
 	// contracts: every loaded root package with a zz_verif_contracts*.go file
 	for _, p := range pkgs {
 		for _, f := range p.CompiledGoFiles {
@@ -404,6 +438,9 @@ func runCheck(o checkOpts) (int, *checkOutcome) {
 		trusted = append(trusted, "go/packages+go/ssa (x/tools v0.50.0) translation of the source", "SMT solvers z3 4.8.12 / z3 5.1.0 / cvc5 1.0 (first definite answer in quick, no disagreement allowed in thorough)")
 		for _, k := range sortedSet(x.havocked) {
 			trusted = append(trusted, "call abstracted: "+k)
+		}
+		for _, k := range sortedSet(x.modelled) {
+			trusted = append(trusted, "library model: "+k)
 		}
 		for p, pc := range x.contracts {
 			for n, c := range pc.funcs {
